@@ -395,29 +395,21 @@ func formatPayeeDetailWithCount(payee string, counts map[string]int, showCounts 
 }
 
 func extractAccountPrefix(content string, pos protocol.Position) string {
-	lines := strings.Split(content, "\n")
-	if int(pos.Line) >= len(lines) {
-		return ""
+	// The parent is taken from the same fragment the candidates are filtered by: the
+	// text from the beginning of the account name to the cursor. Account names may
+	// contain single blanks, so the fragment must not be cut at the last blank.
+	fragment := extractQueryText(content, pos, ContextAccount)
+	if i := strings.IndexByte(fragment, '\t'); i != -1 {
+		fragment = fragment[:i]
 	}
-
-	line := lines[pos.Line]
-	byteCol := lsputil.UTF16OffsetToByteOffset(line, int(pos.Character))
-	if byteCol > len(line) {
-		byteCol = len(line)
+	if i := findDoublespace(fragment); i != -1 {
+		fragment = fragment[:i]
 	}
-
-	beforeCursor := strings.TrimSpace(line[:byteCol])
-
-	lastColon := strings.LastIndex(beforeCursor, ":")
+	lastColon := strings.LastIndex(fragment, ":")
 	if lastColon == -1 {
 		return ""
 	}
-
-	start := strings.LastIndexAny(beforeCursor[:lastColon], " \t")
-	if start == -1 {
-		return strings.TrimLeft(beforeCursor[:lastColon+1], "([")
-	}
-	return strings.TrimLeft(beforeCursor[start+1:lastColon+1], "([")
+	return fragment[:lastColon+1]
 }
 
 func getAccountsForPrefix(accounts *analyzer.AccountIndex, prefix string) []string {
